@@ -85,13 +85,13 @@ DIST_TRACE = {"name": "dist-trace", "kind": "trace", "files": ["DecArith.tla", "
 VESTF = ["DecArith.tla", "VestingMath.tla", "Vesting.tla", "mc/MC_Vesting.tla"]
 VEST_TRACE = {"name": "vesting-trace", "kind": "trace", "files": VESTF + ["trace/Trace_Vesting.tla"], "module": "trace/Trace_Vesting.tla",
               "cfg": "trace/Trace_Vesting.cfg", "recorder": "trace-vesting", "corrupt_event": "msg", "corrupt_field": None, "corrupt_path": ["post", "modBal"],
-              "diag_owner": [("ok", None), ("events", "C18"), ("pools", "C05"), ("modBal", "C05"), ("acct", None), ("locked", None), ("bal", None), ("traces", "C17"), ("summary", "C17")],
+              "diag_owner": [("ok", None), ("vdenom", "C13"), ("events", "C18"), ("pools", "C05"), ("modBal", "C05"), ("acct", None), ("locked", None), ("bal", None), ("traces", "C17"), ("summary", "C17")],
               "header": {"files": VESTF + ["mc/MBT_Vesting.tla"], "module": "mc/MBT_Vesting.tla", "cfg": "mc/MBT_Vesting_header.cfg"},
-              "default_owner": "C05", "event_owner": {"msg": "C05", "delegate": "C07", "configure": "C05"},
+              "default_owner": "C05", "event_owner": {"msg": "C05", "delegate": "C07", "configure": "C05", "updatedenom": "C13"},
               "msg_owner": {"createpool": "C05", "withdraw": "C06", "send": "C08", "createacc": "C08", "split": "C07", "move": "C07", "movedenoms": "C07"},
               "invariant_owner": {"C05_Backed": "C05", "C05_Bounds": "C05", "NoNegBal": "C05", "C17_TraceOnlyForVesting": "C17", "Rejected": "C05", "Conserved": "C05",
                                   "C06_Lock": "C06", "C06_WithdrawnOnlyAfter": "C06", "C06_WithdrawExact": "C06", "C18_WithdrawEvents": "C18", "C07_Exact": "C07",
-                                  "C08_Send": "C08", "C08_Create": "C08", "C09_NoOverwrite": "C09", "C17_Lineage": "C17"},
+                                  "C08_Send": "C08", "C08_Create": "C08", "C09_NoOverwrite": "C09", "C17_Lineage": "C17", "C13_Denom": "C13"},
               "quick": dict(traces=150), "thorough": dict(traces=3000, timeout=3000)}
 
 CHAINF = ["DecArith.tla", "MinterMath.tla", "Minter.tla", "Distributor.tla", "Chain.tla", "mc/MBT_Chain.tla"]
@@ -118,6 +118,9 @@ MINTER_NUM = {"name": "minter-numeric", "kind": "num", "no_tlc": True, "files": 
 DIST_HUGE = {"name": "dist-huge", "kind": "num", "no_tlc": True, "files": [], "module": None, "harness": "numdist", "checker": "check_none",
              "quick": dict(steps=300), "thorough": dict(steps=5000)}
 
+VEST_HUGE = {"name": "vesting-huge", "kind": "num", "no_tlc": True, "files": [], "module": None, "harness": "numpools", "checker": "check_none",
+             "quick": dict(steps=200), "thorough": dict(steps=4000)}
+
 TRUST = ["TLC 1.8.0 and the TLA+ CommunityModules Json module", "the Go harness projection functions (harness/*)",
          "cosmos-sdk bank/auth keepers as the ground truth for balances and accounts"]
 
@@ -142,8 +145,8 @@ PROPS = {
                                     "a panic of a handler on a message that ValidateBasic rejects is counted (handler-only) but not reported: a signer cannot reach it"]},
     "C18": {"level": "model_checking", "stages": [MINTER_SCHED, DIST_CUR, VEST_POOLS, VEST_TRACE], "assumptions": TRUST},
     "C19": {"level": "model_checking", "stages": [MINTER_MC, MINTER_SCHED, MINTER_UPD, MINTER_NUM], "assumptions": TRUST + ["inflation is compared with the model value within 2/P (the model truncates the same rational at 1/P twice)"]},
-    "C05": {"level": "model_checking", "stages": [VEST_MC, VEST_POOLS, VEST_TRACE], "assumptions": VEST_ASSUME},
-    "C06": {"level": "model_checking", "stages": [VEST_MC, VEST_POOLS, VEST_TRACE], "assumptions": VEST_ASSUME},
+    "C05": {"level": "model_checking", "stages": [VEST_MC, VEST_POOLS, VEST_TRACE, VEST_HUGE], "assumptions": VEST_ASSUME},
+    "C06": {"level": "model_checking", "stages": [VEST_MC, VEST_POOLS, VEST_TRACE, VEST_HUGE], "assumptions": VEST_ASSUME},
     "C08": {"level": "model_checking", "stages": [VEST_MC, VEST_POOLS, VEST_ACCTS, SPLIT_NUM, VEST_TRACE], "assumptions": VEST_ASSUME},
     "C07": {"level": "model_checking", "stages": [VEST_MC, SPLIT_DRIFT, SPLIT_NUM, VEST_ACCTS, VEST_TWO, VEST_TRACE],
             "assumptions": VEST_ASSUME + ["real-magnitude steps (amounts to 10^30) are single splits on fresh accounts; Apalache 0.58 evaluates spec/VestingMath.tla at P = 10^18"]},
@@ -151,7 +154,7 @@ PROPS = {
     "C15": {"level": "model_checking", "stages": [SIG_MBT, SIG_TRACE],
             "assumptions": TRUST + ["cryptography is abstract in the model; the harness concretises keys with generated ECDSA P-256 / RSA-2048 self-signed certificates, so soundness is relative to Go's crypto/x509",
                                     "the cfesignature Msg service is not registered with the application's router; the harness calls keeper.NewMsgServerImpl directly"]},
-    "C17": {"level": "model_checking", "stages": [VEST_MC, VEST_ACCTS, VEST_POOLS, VEST_TRACE], "assumptions": VEST_ASSUME},
+    "C17": {"level": "model_checking", "stages": [VEST_MC, VEST_ACCTS, VEST_POOLS, VEST_TWO, VEST_TRACE], "assumptions": VEST_ASSUME},
     "C03": {"level": "model_checking", "stages": [DIST_MC, DIST_CUR, DIST_MULTI, DIST_SINGLE, DIST_TRACE, DIST_HUGE], "assumptions": DIST_ASSUME},
     "C04": {"level": "model_checking", "stages": [DIST_MC, DIST_CUR, DIST_MULTI, DIST_SINGLE, DIST_TRACE], "assumptions": DIST_ASSUME},
     "C14": {"level": "model_checking", "stages": [DIST_MC_FAULTS, DIST_CUR], "assumptions": DIST_ASSUME},
